@@ -5,6 +5,7 @@ import NucsProofs.Propagators.CountEq
 import NucsProofs.Propagators.Counting
 import NucsProofs.Propagators.Dummy
 import NucsProofs.Propagators.Element
+import NucsProofs.Propagators.GccReg
 import NucsProofs.Propagators.Lex
 import NucsProofs.Propagators.MinMax
 import NucsProofs.Propagators.NoSubCycle
@@ -30,6 +31,7 @@ theorem C08_trig_elementLiv : TrigOk .elementLiv := trigOk_elementLiv
 theorem C08_trig_elementLic : TrigOk .elementLic := trigOk_elementLic
 theorem C08_trig_exactlyEq : TrigOk .exactlyEq := trigOk_exactlyEq
 theorem C08_trig_exactlyTrue : TrigOk .exactlyTrue := trigOk_exactlyTrue
+theorem C08_trig_gcc : TrigOk .gcc := trigOk_gcc
 theorem C08_trig_lexLeq : TrigOk .lexLeq := trigOk_lexLeq
 theorem C08_trig_maxEq : TrigOk .maxEq := trigOk_maxEq
 theorem C08_trig_maxLeq : TrigOk .maxLeq := trigOk_maxLeq
@@ -41,7 +43,7 @@ theorem C08_trig_noSubCycle_full_is_false : ¬ TrigOkW .noSubCycle := not_trigOk
 theorem C08_trig_relation : TrigOk .relation := trigOk_relation
 theorem C08_trig_scc : TrigOk .scc := trigOk_scc
 
-def C08_trig_unproved : List Alg := [.gcc]
+def C08_trig_unproved : List Alg := []
 
 theorem localOk_and : LocalOk .and := ⟨sound_and, groundOk_and, entailOk_and, TrigG_of_TrigOk (by decide) trigOk_and, contractMono_and⟩
 theorem localOk_affineEq : LocalOk .affineEq := ⟨sound_affineEq, groundOk_affineEq, entailOk_affineEq, TrigG_of_TrigOk (by decide) trigOk_affineEq, contractMono_affineEq⟩
@@ -55,6 +57,7 @@ theorem localOk_elementLiv : LocalOk .elementLiv := ⟨sound_elementLiv, groundO
 theorem localOk_elementLic : LocalOk .elementLic := ⟨sound_elementLic, groundOk_elementLic, entailOk_elementLic, TrigG_of_TrigOk (by decide) trigOk_elementLic, contractMono_elementLic⟩
 theorem localOk_exactlyEq : LocalOk .exactlyEq := ⟨sound_exactlyEq, groundOk_exactlyEq, entailOk_exactlyEq, TrigG_of_TrigOk (by decide) trigOk_exactlyEq, contractMono_exactlyEq⟩
 theorem localOk_exactlyTrue : LocalOk .exactlyTrue := ⟨sound_exactlyTrue, groundOk_exactlyTrue, entailOk_exactlyTrue, TrigG_of_TrigOk (by decide) trigOk_exactlyTrue, contractMono_exactlyTrue⟩
+theorem localOk_gcc : LocalOk .gcc := ⟨sound_gcc, groundOk_gcc, entailOk_gcc, TrigG_of_TrigOk (by decide) trigOk_gcc, contractMono_gcc⟩
 theorem localOk_lexLeq : LocalOk .lexLeq := ⟨sound_lexLeq, groundOk_lexLeq, entailOk_lexLeq, TrigG_of_TrigOk (by decide) trigOk_lexLeq, contractMono_lexLeq⟩
 theorem localOk_maxEq : LocalOk .maxEq := ⟨sound_maxEq, groundOk_maxEq, entailOk_maxEq, TrigG_of_TrigOk (by decide) trigOk_maxEq, contractMono_maxEq⟩
 theorem localOk_maxLeq : LocalOk .maxLeq := ⟨sound_maxLeq, groundOk_maxLeq, entailOk_maxLeq, TrigG_of_TrigOk (by decide) trigOk_maxLeq, contractMono_maxLeq⟩
@@ -65,11 +68,11 @@ theorem localOk_relation : LocalOk .relation := ⟨sound_relation, groundOk_rela
 theorem localOk_scc : LocalOk .scc := ⟨sound_scc, groundOk_scc, entailOk_scc, TrigG_of_TrigOk (by decide) trigOk_scc, contractMono_scc⟩
 
 /-- the algorithms whose five local contracts are all proved -/
-def provenAlgs : List Alg := [.and, .affineEq, .affineGeq, .affineLeq, .alldifferent, .countEq, .dummy, .elementIv, .elementLiv, .elementLic, .exactlyEq, .exactlyTrue, .lexLeq, .maxEq, .maxLeq, .minEq, .minGeq, .noSubCycle, .relation, .scc]
+def provenAlgs : List Alg := [.and, .affineEq, .affineGeq, .affineLeq, .alldifferent, .countEq, .dummy, .elementIv, .elementLiv, .elementLic, .exactlyEq, .exactlyTrue, .gcc, .lexLeq, .maxEq, .maxLeq, .minEq, .minGeq, .noSubCycle, .relation, .scc]
 
 theorem localOk_of_proven (a : Alg) (h : a ∈ provenAlgs) : LocalOk a := by
   simp only [provenAlgs, List.mem_cons, List.mem_nil_iff, or_false] at h
-  rcases h with rfl | rfl | rfl | rfl | rfl | rfl | rfl | rfl | rfl | rfl | rfl | rfl | rfl | rfl | rfl | rfl | rfl | rfl | rfl | rfl
+  rcases h with rfl | rfl | rfl | rfl | rfl | rfl | rfl | rfl | rfl | rfl | rfl | rfl | rfl | rfl | rfl | rfl | rfl | rfl | rfl | rfl | rfl
   · exact localOk_and
   · exact localOk_affineEq
   · exact localOk_affineGeq
@@ -82,6 +85,7 @@ theorem localOk_of_proven (a : Alg) (h : a ∈ provenAlgs) : LocalOk a := by
   · exact localOk_elementLic
   · exact localOk_exactlyEq
   · exact localOk_exactlyTrue
+  · exact localOk_gcc
   · exact localOk_lexLeq
   · exact localOk_maxEq
   · exact localOk_maxLeq
